@@ -31,7 +31,7 @@ Lemma sw_noeof_guarded d : forall ops acc,
   sw d acc ops && no_eof ops = guarded (sw_noeof_op d) acc ops.
 Proof.
   induction ops as [|o r IH]; intros acc; [reflexivity|].
-  destruct o as [dt| | |p]; cbn [sw no_eof guarded sw_noeof_op sw_op]; try apply IH.
+  destruct o as [dt| | |p|]; cbn [sw no_eof guarded sw_noeof_op sw_op]; try apply IH.
   - destruct (acc + Z.max 0 dt <=? d); cbn [andb]; [apply IH | reflexivity].
   - destruct p; try apply IH. apply andb_false_r.
 Qed.
@@ -80,6 +80,8 @@ Section Phases.
     I s (obs (now s) (if sock s then [TxOther] else []) o) a'.
   Hypothesis H_rx : forall s o a p a', I s o a -> g a (Rx p) = Some a' ->
     I (fst (step s (Rx p))) (obs (now s) (if sock s then [Arr p] else []) o) a'.
+  Hypothesis H_reconn : forall s o a a', I s o a -> g a Reconnect = Some a' ->
+    I (fst (step s Reconnect)) (obs (now s) ((if sock s then [Closed RC_RECONNECT] else []) ++ [TxConnect]) o) a'.
   Hypothesis H_dead : forall s o a a', I s o a -> g a Service = Some a' -> sock s = false ->
     I s (obs (now s) [LoopRc RC_CONN_LOST] o) a'.
   Hypothesis H_read : forall s o a, I s o a -> sock s = true ->
@@ -90,7 +92,8 @@ Section Phases.
   Lemma phase_step : forall s o a op a', I s o a -> g a op = Some a' ->
     I (fst (step s op)) (fold_left ostep (stamp (now (fst (step s op))) (snd (step s op))) o) a'.
   Proof.
-    intros s o a op a' HI Hg. destruct op as [dt| | |p].
+    intros s o a op a' HI Hg. destruct op as [dt| | |p|].
+    5:{ pose proof (H_reconn s o a a' HI Hg) as H. cbn [step fst snd now] in *. exact H. }
     - pose proof (H_tick s o a dt a' HI Hg) as H. cbn [step fst snd now] in *. exact H.
     - cbn [step]. unfold service.
       destruct (sock s) eqn:Es; cbn [negb].
@@ -151,7 +154,7 @@ Proof.
   unfold serviced_within in Hsw. rewrite sw_guarded in Hsw.
   destruct (run t0 K ops) as [s tr] eqn:Er. intros Hsk.
   pose proof (run_from_inv (sw_op d) ltx_step (I_pings K d)) as H.
-  specialize (fun a b c d0 e f => H a b c d0 e f ops (init t0 K) [(t0, TxConnect)] t0 0).
+  specialize (fun a b c r d0 e f => H a b c r d0 e f ops (init t0 K) [(t0, TxConnect)] t0 0).
   unfold run in Er. rewrite Er in H. cbn [fst snd] in H.
   destruct H as (a' & Hk & Ha & Hlo & Hlt & Hs); try exact Hsw.
   - (* tick *) intros s0 o a dt a' (Hk & Ha & Hlo & Hlt & Hs) Hg. cbn [sw_op] in Hg.
@@ -161,6 +164,8 @@ Proof.
     destr_st s0. destruct sk; try specialize (Hs eq_refl); fin_pings.
   - (* rx *) intros s0 o a p a' (Hk & Ha & Hlo & Hlt & Hs) Hg. cbn [sw_op] in Hg. inv Hg.
     destr_st s0. cbn [step]. proj. destruct sk; try specialize (Hs eq_refl); fin_pings.
+  - (* reconnect *) intros s0 o a a' (Hk & Ha & Hlo & Hlt & Hs) Hg. inv Hg.
+    destr_st s0. cbn [step]. proj. destruct sk; try specialize (Hs eq_refl); cbn [app]; fin_pings.
   - (* dead *) intros s0 o a a' (Hk & Ha & Hlo & Hlt & Hs) Hg Hsk0. inv Hg.
     destr_st s0. subst sk. fin_pings.
   - (* read *) intros s0 o a (Hk & Ha & Hlo & Hlt & Hs) Hsk0.
@@ -212,7 +217,8 @@ Definition I_zero (s : st) (n : nat) (a : unit) : Prop := kk s = 0 /\ ping_t s =
 
 (* comparisons between return-code literals *)
 Ltac zconst :=
-  unfold RC_KEEPALIVE, RC_CONN_LOST, RC_NO_CONN, RC_SUCCESS in *;
+  unfold RC_KEEPALIVE, RC_CONN_LOST, RC_NO_CONN, RC_SUCCESS, RC_RECONNECT in *;
+  change (-1 =? 16) with false in *; change (-1 =? 0) with false in *;
   change (7 =? 16) with false in *; change (16 =? 16) with true in *;
   change (7 =? 0) with false in *; change (4 =? 0) with false in *; change (0 =? 0) with true in *.
 
@@ -230,11 +236,12 @@ Lemma zero_all : forall t0 ops, count_k ka_event (snd (run t0 0 ops)) = 0%nat.
 Proof.
   intros t0 ops. rewrite count_k_fold.
   pose proof (run_from_inv free_op (cnt_step ka_event) I_zero) as H.
-  specialize (fun a b c d0 e f => H a b c d0 e f ops (init t0 0) [(t0, TxConnect)] 0%nat tt).
+  specialize (fun a b c r d0 e f => H a b c r d0 e f ops (init t0 0) [(t0, TxConnect)] 0%nat tt).
   unfold run. destruct H as (a' & Hk & Hp & Hn); try apply free_guarded; try exact Hn.
   - intros s0 o a dt a' (Hk & Hp & Hn) _. destr_st s0. cbn [step]. fin_zero.
   - intros s0 o a a' (Hk & Hp & Hn) _. destr_st s0. destruct sk; fin_zero.
   - intros s0 o a p a' (Hk & Hp & Hn) _. destr_st s0. cbn [step]. proj. destruct sk; fin_zero.
+  - intros s0 o a a' (Hk & Hp & Hn) _. destr_st s0. cbn [step]. proj. destruct sk; cbn [app]; fin_zero.
   - intros s0 o a a' (Hk & Hp & Hn) _ Hsk0. destr_st s0. fin_zero.
   - intros s0 o a (Hk & Hp & Hn) Hsk0. destr_st s0. unfold read_phase, read_one, close_with. proj.
     destruct q as [|[] r]; unfold RC_CONN_LOST, RC_KEEPALIVE; fin_zero.
@@ -283,7 +290,7 @@ Lemma core_justified : forall K t0 ops, 0 < K -> 0 < t0 ->
 Proof.
   intros K t0 ops HK Ht0. unfold closes_justified.
   pose proof (run_from_inv free_op (jmon_step K) (I_core K)) as H.
-  specialize (fun a b c d0 e f => H a b c d0 e f ops (init t0 K) [(t0, TxConnect)] (mkjmon None None true) tt).
+  specialize (fun a b c r d0 e f => H a b c r d0 e f ops (init t0 K) [(t0, TxConnect)] (mkjmon None None true) tt).
   unfold run. destruct H as (a' & Hk & Hn & Hok & _); try apply free_guarded; try exact Hok.
   - intros s0 [jc jp jok] a dt a' (Hk & Hn & Hok & Hio & Hin & Hp & Hs) _.
     destr_st s0. cbn [step]. cbn [jm_ok jm_conn jm_ping] in *. fin_core; apply Hs; assumption.
@@ -291,6 +298,9 @@ Proof.
     destr_st s0. cbn [jm_ok jm_conn jm_ping] in *. destruct sk; fin_core; apply Hs; assumption.
   - intros s0 [jc jp jok] a p a' (Hk & Hn & Hok & Hio & Hin & Hp & Hs) _.
     destr_st s0. cbn [step]. proj. cbn [jm_ok jm_conn jm_ping] in *. destruct sk; fin_core; apply Hs; assumption.
+  - intros s0 [jc jp jok] a a' (Hk & Hn & Hok & Hio & Hin & Hp & Hs) _.
+    destr_st s0. cbn [step]. proj. cbn [jm_ok jm_conn jm_ping] in *.
+    destruct sk; cbn [app]; fin_core.
   - intros s0 [jc jp jok] a a' (Hk & Hn & Hok & Hio & Hin & Hp & Hs) _ Hsk0.
     destr_st s0. cbn [jm_ok jm_conn jm_ping] in *. subst sk. fin_core.
   - intros s0 [jc jp jok] a (Hk & Hn & Hok & Hio & Hin & Hp & Hs) Hsk0.
@@ -373,6 +383,12 @@ Qed.
 Lemma Ibase_rx K s p : Ibase K s -> Ibase K (fst (step s (Rx p))).
 Proof.
   intros H. destr_st s. cbn [step]. proj. destruct sk; exact H.
+Qed.
+
+Lemma Ibase_reconn K s : Ibase K s -> Ibase K (fst (step s Reconnect)).
+Proof.
+  intros (Hk & Hn & Hio & Hin & Hp & Hlo & Hs & Hf). destr_st s. cbn [step]. unfold Ibase. proj.
+  repeat split; try lia; try congruence; try discriminate.
 Qed.
 
 Lemma Ibase_read K s : Ibase K s -> sock s = true -> Ibase K (fst (read_phase s)).
